@@ -129,12 +129,15 @@ async fn stale_early_bi_handles_do_not_touch_fresh_stream() {
     let connection = endpoint.connect(addr, "localhost").unwrap().into_0rtt().unwrap_or_else(|_| panic!("missing 0-RTT keys"));
     let (mut early_tx, early_rx) = connection.open_bi().await.expect("0-RTT open bi");
     early_tx.write_all(EARLY).await.expect("0-RTT write");
+    let (mut early_tx2, early_rx2) = connection.open_bi().await.expect("second 0-RTT open bi");
     connection.authenticated().await.expect("connected");
     assert_eq!(early_tx.write_all(EARLY).await, Err(WriteError::ZeroRttRejected));
 
     let (mut fresh_tx, mut fresh_rx) = connection.open_bi().await.expect("1-RTT open bi");
     assert_eq!(fresh_tx.id(), early_tx.id());
     fresh_tx.write_all(PART1).await.expect("first write");
+    let stale = timeout(Duration::from_secs(3), early_tx.stopped()).await.expect("stopped() on the rejected 0-RTT stream's handle waits for the fresh stream that reuses its id");
+    assert_eq!(stale, Err(crate::StoppedError::ZeroRttRejected), "stopped() on the rejected 0-RTT stream's handle reports the state of the fresh stream that reuses its id");
     let mut early_rx = early_rx;
     let _ = early_rx.stop(VarInt::from_u32(9));
     drop(early_rx);
@@ -145,6 +148,9 @@ async fn stale_early_bi_handles_do_not_touch_fresh_stream() {
         .expect("the fresh stream's receive side was stopped through the rejected 0-RTT stream's handle");
     assert_eq!(echoed, [PART1, PART2].concat());
     connection.close(0u32.into(), b"");
+    let stale = timeout(Duration::from_secs(3), early_tx2.stopped()).await.expect("stopped() on a rejected 0-RTT stream's handle never completes on a closed connection");
+    assert_eq!(stale, Err(crate::StoppedError::ZeroRttRejected), "on a closed connection stopped() on a rejected 0-RTT stream's handle consults the stream table");
+    drop((early_tx2, early_rx2));
     let received = server.await.unwrap();
     assert_eq!(received, vec![[PART1, PART2].concat()]);
     endpoint.wait_idle().await;
